@@ -196,7 +196,7 @@ CHECKS["C09"] = dict(
           "checksum, records carrying the unpadded length and the running padded offset through checked conversions; tables kept and emitted "
           "in tag order; glyf, loca and head written with one loca format; the WOFF2 provider serialises head after its last modification; hmtx writers and hhea.numberOfHMetrics agree (the instancer sets "
           "it on every path); composite glyph reader and writer agree on where WE_HAVE_INSTRUCTIONS is looked for. "
-          "Mutual consistency of table contents and the search-field values are not decided. Every table handed to the font builder is stored on every path to an Ok result (T09-ADD); the CFF header writers announce the size they write (C15-s); hhea.numberOfHMetrics of an instance is the number of long metrics of the hmtx that is written, or no source hmtx is passed through (T09-HHEA)."),
+          "Mutual consistency of table contents and the search-field values are not decided. Every table handed to the font builder is stored on every path to an Ok result (T09-ADD); the CFF header writers announce the size they write (C15-s); hhea.numberOfHMetrics of an instance is the number of long metrics of the hmtx that is written, or no source hmtx is passed through (T09-HHEA); the sfnt version of a written font is a constant or decided on both 'CFF ' and 'CFF2' (T09-MAGIC)."),
     design_ref="DESIGN.md section 6, C09",
 )
 
